@@ -433,7 +433,7 @@ ReloadHonoursAutoStart ==
                       /\ cst[t] = IF prev.cst[t] = "none" THEN "none" ELSE IF Das(t) THEN "Paused" ELSE "Running"
 
 ContractX(XT, XA, XR, XQ) ==
-            /\ ViewsAgreeX(XT) /\ OnlyLegalTransitions /\ OthersUntouchedX(XR) /\ PausedIsQuietX(XT \cup XQ, XA)
+            /\ ViewsAgreeX(XT) /\ OnlyLegalTransitions /\ OthersUntouchedX(XR \cup XQ) /\ PausedIsQuietX(XT \cup XQ, XA)
             /\ RunningReadsX(XR \cup XT) /\ NoBusyWork /\ DeleteRemovesAll /\ ReloadHonoursAutoStart
 
 ViewsAgree == ViewsAgreeX({})
